@@ -1159,7 +1159,7 @@ def fuzz(ctx: core.Ctx, env: Env, rng, n, directed=True, mutators=None):
     seeds = env.seeds
     todo = _directed(env, rng) if directed else []
     mutators = mutators or MUTATORS
-    t_end = time.time() + 1200
+    t_end = time.time() + 1400
     for i in range(n):
         if i < len(todo):
             seed, fn = todo[i]
@@ -1288,7 +1288,7 @@ def run(ctx: core.Ctx):
     jobs = []
     configs = [('sync', False, 0), ('async', True, 0), ('sync', True, 512), ('async', False, 0)]
     nw = 12 if q else 15
-    per = 330 if q else 18000
+    per = 330 if q else 12000
     for i in range(nw):
         mode, deferred, chunk = configs[i % len(configs)]
         jobs.append(['w_fuzz', {'i': i, 'n': per, 'mode': mode, 'deferred': deferred, 'chunk': chunk, 'directed': i < 4}])
